@@ -16,17 +16,18 @@ THEOREMS = ["Props.C07." + t for t in [
     "perm_into_map", "perm_into_map_needs_distinct_keys", "ns_add_comm", "std_imports_distinct",
     "perm_then_sort", "perm_then_sort_strings", "perm_any", "perm_sum", "replacer_perm",
     "insertion_keys_prefix_free", "insertion_replace_perm", "insertion_replace_needs_key_alphabet",
-    "descriptor_bytes_perm_false", "descriptor_bytes_order_sensitive", "file_descriptor_order_sensitive",
-    "descriptor_bytes_perm_partial", "descriptor_bytes_sorted_perm", "plugin_request_order_sensitive",
-    "fastgo_imports_order_sensitive", "fastgo_imports_formatted_perm",
-    "fastgo_imports_unformatted_order_sensitive", "site_inventory_covered", "emit_in_order_sites"]]
+    "descriptor_bytes_perm", "file_descriptor_perm", "plugin_request_perm", "fastgo_imports_perm",
+    "descriptor_bytes_needs_sort", "descriptor_bytes_unsorted_order_sensitive", "file_descriptor_unsorted_order_sensitive",
+    "plugin_request_unsorted_order_sensitive", "fastgo_imports_unsorted_order_sensitive",
+    "site_inventory_covered", "emit_in_order_sites"]]
 
 RULE = ("in-process cases (R: Feed histories with insertion points and patches; D: FileDescriptors with 0..4 includes and 0..6 "
         "namespaces, one case per distinct byte string meta.Marshal produced in 8 calls; N: namespace.Add sequences, for "
         "pairwise-distinct names/ids also 3 random permutations) are distinct by sha256 of the op line and non-trivial when they "
         "have >=1 insertion point and >=1 patch / a map of >=2 entries / >=2 entries; dynamic cases are (generated multi-file IDL "
         "program x option set) combos, each executed runs_per_combo times with GOMAXPROCS cycling 1,2,7,16, relative and absolute "
-        "output directories and once into a directory holding a stale previous output; a combo counts as distinct non-trivial when "
+        "output directories and once into a directory holding a stale previous output; before them a regression corpus: the 3 minimal "
+        "witnesses of the three repaired defects (40 executions each) and 3 wide variants with 8-entry maps (16 each), one hash expected; a combo counts as distinct non-trivial when "
         "thriftgo accepted it and it produced >=1 output file or plugin request; evaluations = in-process cases + thriftgo executions")
 
 
@@ -50,12 +51,10 @@ def run(ctx):
         "source of non-determinism other than map iteration and scheduling (time, pid, environment) are observed only by the dynamic oracle",
     ]
     ctx.partial += [
-        "descriptor_bytes_perm is FALSE on the current tree (descriptor_bytes_perm_false, descriptor_bytes_order_sensitive); proved: "
-        "descriptor_bytes_perm_partial (<=1 entry) and descriptor_bytes_sorted_perm (sorted variant = suggested repair)",
-        "plugin request bytes and fastgo import block without go/format: order-sensitive (plugin_request_order_sensitive, "
-        "fastgo_imports_order_sensitive); no positive theorem exists for the code as it is",
         "ns_add_comm / perm_into_map need pairwise-distinct keys; insertion_replace_perm needs patch point names inside the "
         "insertion-point alphabet (insertion_replace_needs_key_alphabet shows the hypothesis is necessary)",
+        "descriptor_bytes_perm / plugin_request_perm / fastgo_imports_perm are about the sorted writers (the code after the C07 repairs); "
+        "on a tree without the repairs the D correspondence and the regression corpus fail (…_unsorted_order_sensitive say why)",
     ]
     tools = ["-thriftgo", tg, "-plugin", plug or ""]
     if exe and ctx.replay:
@@ -98,7 +97,8 @@ def run(ctx):
         dist.update({"dyn:shape:" + k: v for k, v in (dyn.get("program_shape_totals") or {}).items()})
         dist.update({"dyn:differing:" + k: v for k, v in (dyn.get("differing_by_signature") or {}).items()})
         ctx.cov.update(evaluations=st["evaluations"] + dyn["executions"],
-                       distinct_nontrivial=st["distinct_nontrivial"] + dyn["distinct_accepted_combos"],
+                       distinct_nontrivial=st["distinct_nontrivial"] + dyn["distinct_accepted_combos"] + dyn.get("regression_items", 0)
+                       - len(dyn.get("regression_items_failed") or []),
                        samples=(st["samples"] or [])[:6] + (dyn.get("samples") or [])[:4],
                        distribution=dist, exhaustive=False,
                        in_process_cases=st["evaluations"], thriftgo_executions=dyn["executions"],
@@ -107,11 +107,11 @@ def run(ctx):
                        files_compared=dyn["files_compared"], plugin_requests_compared=dyn["plugin_requests_compared"],
                        shrink_tests=dyn["shrink_tests"])
         multi = st["distribution"].get("D:of_those_marshalled_in_2+_orders_within_8_calls", 0)
-        ctx.cov["descriptor_marshalling"] = ("iteration order reaches the bytes (%d of %d descriptors with a >=2-entry map were marshalled "
-                                             "in >=2 orders within 8 calls): class emitInOrder, descriptor_bytes_order_sensitive applies" % (
-                                                 multi, st["distribution"].get("D:descriptors_with_a_map_of_2+_entries", 0))) if multi else (
-            "every descriptor marshalled to one byte string: the sorted variant is in effect (descriptor_bytes_sorted_perm); "
-            "the classification of meta.write as emitInOrder in Props/C07.lean is stale")
+        ctx.cov["descriptor_marshalling"] = ("%d of %d descriptors with a >=2-entry map were marshalled to more than one byte string within 8 calls "
+                                             "(0 expected: meta.write sorts the entries)" % (
+                                                 multi, st["distribution"].get("D:descriptors_with_a_map_of_2+_entries", 0)))
+        ctx.cov["regression_items"] = dyn.get("regression_items", 0)
+        ctx.cov["regression_items_failed"] = dyn.get("regression_items_failed") or []
         if dyn["combos"] and dyn["combos_accepted"] * 2 < dyn["combos"]:
             raise core.MachineryError("generator problem: thriftgo rejected most generated programs: %s" % (dyn.get("combos_rejected") or [])[:3])
         for f in (st.get("oracle_failures") or []):
